@@ -6,6 +6,8 @@ CONSTANTS
   FixPrune = TRUE
   FixRestart = TRUE
   PruneOutsideLock = FALSE
+  WeakRegistry = FALSE
+  HeldSet <- H_both
   Hist = TRUE
   Atomic = TRUE
   Ops <- Ops_all
